@@ -66,16 +66,17 @@ func H_C20_registers() {
 // is never skipped because the new value "looks like" the old one (the
 // number 1 and the string "1", true and "true", NULL and "<nil>").
 func H_C20_kinds() {
-	exprs := []string{"1", "'1'", "TRUE", "'true'", "NULL", "'<nil>'", "n", "s"}
+	exprs := []string{"1", "'1'", "TRUE", "'true'", "NULL", "'<nil>'", "n", "s", "o", "o2", "arr", "ARRAY(n, 1)"}
 	x := verif.F64("n")
 	verif.Assume(x == x)
 	str := verif.Str("s", 2, "1a")
-	vals := []any{float64(1), "1", true, "true", nil, "<nil>", x, str}
+	obj, obj2, arr := Map{"p": x}, Map{"p": x}, []any{x, "e"}
+	vals := []any{float64(1), "1", true, "true", nil, "<nil>", x, str, obj, obj2, arr, []any{x, float64(1)}}
 	v1 := verif.Choose("v1", len(exprs))
 	v2 := verif.Choose("v2", len(exprs))
 	v3 := verif.Choose("v3", len(exprs))
 	vars := map[string]any{}
-	doc := Map{"t": []any{Map{"n": x, "s": str}}}
+	doc := Map{"t": []any{Map{"n": x, "s": str, "o": obj, "o2": obj2, "arr": arr}}}
 	sql := "SELECT SETVAR('k', " + exprs[v1] + "), GETVAR('k') AS a, SETVAR('k', " + exprs[v2] + "), GETVAR('k') AS b, SETVAR('k', " + exprs[v3] + "), GETVAR('k') AS c FROM t"
 	got, ok := runQuery(doc, sql, WithVars(vars))
 	if !ok {
